@@ -26,7 +26,7 @@ ASSUMPTIONS = [
   "a non-finite MJWarp state counts only when a one-step deviation > 2e-2 from mj_step on the same (moderate) state is demonstrated within the last 64 steps; otherwise it is attributed to diverging physics",
   "tolerances 1e-5 (quaternion norm) and 1e-4 (orthogonality), float32",
 ]
-BUDGET = {"quick": dict(examples=256, seconds=150, workers=16), "thorough": dict(examples=1600, seconds=1500, workers=16)}
+BUDGET = {"quick": dict(examples=256, seconds=420, workers=16), "thorough": dict(examples=1600, seconds=1500, workers=16)}
 _CAP = int(OT.NEFC | OT.NJMAX_NNZ | OT.BROADPHASE | OT.NARROWPHASE | OT.CCD | OT.NVMAX | OT.HFIELD | OT.EPA_HORIZON | OT.CONTACT_MATCH)
 _INTEG = ["Euler", "implicitfast", "implicit", "RK4"]
 
